@@ -64,7 +64,7 @@ func itoa(l eval.Lin) eval.Str { return eval.Str{Parts: []eval.StrPart{{Itoa: &l
 
 func C10(c *core.Ctx) {
 	c.Explanation("C10: getLines is interpreted abstractly; its column loop is reduced to a transfer function over (reference symbol, query symbol, open-tract state) for all 17x17x2 points and compared with the specified two-state transducer: a column is a SNP iff the query symbol is A/C/G/T and not in the reference symbol's base set (string ref+(i+1)+query, position i+1, SNP counter +1); every non-A/C/G/T column increments the ambiguity counter and opens or extends the tract; a resolved column closes an open tract emitting (start+1, stop+1); an open tract is flushed after the loop. The emitted record carries exactly the lists built by the loop. The writer is interpreted on a symbolic record: header, column order, '|' separators, 'a' vs 'a-b' range forms.")
-	checkStdoutWriters(c, facts(c), "R9") // the rows are the only thing on the output stream
+	checkStdoutWriters(c, facts(c), "R9", "pkg/updown", "pkg/fastaio", "pkg/gfio", "pkg/encoding") // the rows are the only thing on the output stream
 	checkArrivalOrderIndependence(c, "R7/reorder", "updown.writeOutput")
 	checkSoftGapReaders(c, "R6", "pkg/updown")
 	ev0 := newEval(c)
@@ -73,7 +73,8 @@ func C10(c *core.Ctx) {
 		return
 	}
 	checkEncDec(c, "R0", tabs) // only the 32 IUPAC symbols (and no other byte, e.g. U) are sequence symbols
-	checkWorkersStateless(c, "R8", tabs)
+	checkWorkersStateless(c, "R8", tabs, "pkg/updown")
+	checkReaders(c, tabs, "R10/", true, "ReadEncodeAlignment", "ReadEncodeAlignmentToList") // the sequences summarised are the records of the files, however their lines are wrapped
 	fn := c.LookupFunc("pkg/updown", "getLines")
 	if fn == nil {
 		c.Und("R1/getLines", token.NoPos, "UNRESOLVED anchor updown.getLines")
